@@ -88,7 +88,7 @@ def norm_steps(lines):
     """library output ('(name args)\\n' strings) -> token lists"""
     out = []
     for ln in lines:
-        t = sx.tokens(ln)
+        t = ln.replace("(", " ( ").replace(")", " ) ").split()  # case preserving: lower-casing is part of the property
         if t and t[0] == "(" and t[-1] == ")":
             t = t[1:-1]
         out.append(t)
@@ -182,7 +182,7 @@ def run(ctx):
         rp = os.path.join(env.repo_path(), "tests", "exporters_tests")
         try:
             status, acts = MetricFFParser().get_solving_status(Path(os.path.join(rp, "output.out")))
-            want = norm_steps(open(os.path.join(rp, "depot_numeric.solution")).read().splitlines())
+            want = [[t.lower() for t in st] for st in norm_steps(open(os.path.join(rp, "depot_numeric.solution")).read().splitlines())]
             ctx.count("compared:steps")
             ctx.count("shipped_log")
             if status != "ok" or norm_steps(acts) != want:
